@@ -594,6 +594,9 @@ class RequireCommand(ControlCommand):
             ext = ext.strip('"')
             if ext not in RequireCommand.loaded_extensions:
                 RequireCommand.loaded_extensions += [ext]
+            # RFC 6131, section 2: "vacation-seconds" implies "vacation"
+            if ext == "vacation-seconds" and "vacation" not in RequireCommand.loaded_extensions:
+                RequireCommand.loaded_extensions += ["vacation"]
 
 
 class IfCommand(ControlCommand):
